@@ -62,6 +62,7 @@ def tok(ins):
     if k == "pparam": return "P%d" % ins[1]
     if k == "params": return "(%d)" % ins[1]
     if k == "badstart": return ("T%d" if BADSTART[ins[1]][1] else "t%d") % ins[2]
+    if k == "casestart": return ("T%d" if ins[1] else "t%d") % ins[2]
     if k == "waitsum": return "T%d m%d" % (ins[1], ins[3])
     raise ValueError(ins)
 
@@ -88,6 +89,14 @@ BADSTART = [
     ("$o%(o)d waitexec aux.scr::t%(l)d", True),
     ("local.r = waitthread aux.scr::t%(l)d local", True),
     ("level thread t%(l)d local", False),
+]
+
+
+CASESTART = [
+    ("thread T%d local", "waitthread T%d local"),
+    ("local.r = thread T%d local", "local.r = waitthread T%d local"),
+    ("thread T%d", "waitthread T%d 1 2"),
+    ("local thread T%d local", "local waitthread T%d local"),
 ]
 
 
@@ -141,6 +150,12 @@ def stmt(ins):
         return "end %d" % ins[1]
     if k == "pparam": return 'println "p" local.p%d' % ins[1]
     if k == "badstart": return BADSTART[ins[1]][0] % {"l": ins[2], "o": ins[3] if len(ins) > 3 else 1}
+    if k == "casestart":
+        # ("casestart", is-waitthread, l, c, form): a start at the upper-case spelling `T<c>` of the declared
+        # label `t<c>`.  Labels are declared in lower case and names are case sensitive: the name is not a
+        # label of the script, the statement is the same script error as a `badstart`; for the machine it is
+        # a start at the missing label l (>= number of labels; checked in `script_line`).
+        return CASESTART[ins[4] if len(ins) > 4 else 0][1 if ins[1] else 0] % ins[3]
     if k == "waitsum":
         # ("waitsum", label, form, expected): `waitthread` in expression position with the callee's result
         # made visible: the caller is suspended with operands on its VM stack, and what it prints once the
@@ -182,6 +197,7 @@ def script_line(prog, name="m"):
     for body in prog:
         for x in body:
             assert x[0] != "badstart" or x[2] >= len(prog), "badstart must name a missing label"
+            assert x[0] != "casestart" or (x[2] >= len(prog) > x[3]), "casestart: a missing label for the machine, the upper-case spelling of a declared one in the text"
     abstract = " / ".join(head(body) + " ".join(tok(x) for x in body) for body in prog)
     return "script %s %s ## %s" % (name, render(prog).encode().hex(), abstract)
 
@@ -392,8 +408,12 @@ def gen_call_prog(rng):
         else:
             body.append(("end", ("param", rng.randrange(k))))
         prog.append(body)
-    # a notifier label
-    prog.append([mk.next(), ("notify", 1, rng.choice([1, 2])), mk.next()])
+    # a notifier label; in a third of the programs it first tries to start a thread at the upper-case
+    # spelling of a declared label (a name that is not a label: script error, nothing started)
+    tail = [mk.next(), ("notify", 1, rng.choice([1, 2])), mk.next()]
+    if rng.random() < 0.35:
+        tail.insert(rng.choice([0, 1, 2]), ("casestart", rng.random() < 0.5, nl + 1 + rng.randint(0, 3), rng.randrange(1, nl), rng.randrange(len(CASESTART))))
+    prog.append(tail)
     return prog
 
 
@@ -410,13 +430,23 @@ def gen_call_case(rng):
             lines.append("call m t%d" % (len(prog) - 1))
             lines.append("thread-result")
         elif r < 0.8:
-            lines.append("call m t%d" % (len(prog) + rng.randint(0, 3)))      # label not found
+            if rng.random() < 0.5:
+                lines.append("call m t%d" % (len(prog) + rng.randint(0, 3)))      # label not found
+            else:
+                # the upper-case spelling of a declared label (labels are declared in lower case, names are
+                # case sensitive): label not found as well, with and without arguments, with and without
+                # a call record (`callv`)
+                l = rng.randrange(0, len(prog))
+                if rng.random() < 0.25:
+                    lines.append("callv m T%d" % l)
+                else:
+                    lines.append(("call m T%d %s" % (l, " ".join(gen_arg(rng) for _ in range(rng.randint(0, 3))))).rstrip())
         else:
             lines.append("step %d" % rng.choice(STEPS))
             lines.append("thread-result")
     lines += ["step 1000", "thread-result", "step 1000", "thread-result"]
     # a third of the host calls go through the by-name overloads ExecuteThread(name, [event,] label)
-    lines = [l.replace("call m ", "call @m ", 1) if l.startswith("call m ") and rng.random() < 0.33 else l for l in lines]
+    lines = [l.replace(" m ", " @m ", 1) if l.startswith(("call m ", "callv m ")) and rng.random() < 0.33 else l for l in lines]
     return lines
 
 
@@ -815,7 +845,8 @@ def gen_c09_expr_prog(rng):
 
 
 # engine A/B only (free script text): results of suspended calls used as arguments, in string / array /
-# vector expressions, in conditions; level variables printed at the end
+# vector expressions, in conditions; level variables printed at the end; threads sleeping inside try blocks
+# into which other threads throw catch labels (the machine has no try/catch)
 AB_EXPR_SCRIPTS = [
     # the shape of seeded/C09-ind-6: assignment + arithmetic, level variable
     """t0:
@@ -911,6 +942,174 @@ end
 numf local.n:
 wait 0.125
 end local.n
+""",
+    # try/catch (the shape of seeded/C09-ind-9): workers sleeping inside a try block, each with a watchdog thread that
+    # throws the catch label into it after its own delay (before the first wake-up, between the two, never): for
+    # the save points between a worker's last instruction and the throw, the throw reaches a restored thread that
+    # has not run since the load; the output says which path ran
+    """t0:
+thread worker 1 0.1
+thread worker 2 0.2
+thread worker 3 0.35
+thread worker 4 0.55
+thread worker 5 2
+wait 1.5
+println "main done"
+end
+worker local.id local.when:
+thread watchdog local local.when local.id
+local.progress = 0
+try
+{
+  println "worker " local.id " starts"
+  wait 0.3
+  local.progress = 1
+  wait 0.3
+  local.progress = 2
+  println "worker " local.id " finished normally"
+}
+catch
+{
+aborted:
+  println "worker " local.id " aborted at progress " local.progress
+}
+println "worker " local.id " leaves"
+end
+watchdog local.target local.when local.id:
+wait local.when
+if (local.target)
+{
+  println "watchdog " local.id " fires"
+  local.target throw aborted
+  println "watchdog " local.id " fired"
+}
+else
+{
+  println "watchdog " local.id ": target gone"
+}
+end
+""",
+    # nested try blocks; the target is suspended in `waitthread` (mid-expression), in a catch handler's own wait
+    # and in `waittill`; throws of the inner label, the outer label and a label nobody catches (ends the thread)
+    """t0:
+thread worker
+wait 1.2
+println "main done"
+end
+ctl local.w:
+wait 0.13
+println "throw inner"
+local.w throw inner 5
+wait 0.3
+if (local.w) {
+  println "throw outer"
+  local.w throw outer "bye"
+}
+wait 0.2
+if (local.w) {
+  println "throw unknown"
+  local.w throw nobody
+}
+wait 0.2
+if (local.w) {
+  println "worker still there"
+}
+println "ctl done"
+end
+worker:
+thread ctl local
+local.stage = 0
+try
+{
+  local.stage = 1
+  try
+  {
+    local.stage = 2
+    local.r = waitthread slow 3
+    println "inner done " local.r
+  }
+  catch
+  {
+  inner local.code:
+    println "caught inner " local.code " at stage " local.stage
+    local.stage = 3
+    wait 0.2
+    println "inner handler done"
+  }
+  local.stage = 4
+  level waittill "never"
+  println "not reached"
+}
+catch
+{
+outer local.msg:
+  println "caught outer " local.msg " at stage " local.stage
+}
+println "worker leaves"
+wait 0.5
+println "worker end"
+end
+slow local.x:
+wait 0.4
+println "slow done"
+end (local.x * 2)
+""",
+    # `throw` and `delaythrow` with arguments into threads sleeping in a loop inside try and in `level waittill`
+    """t0:
+level.caught = 0
+thread sleeper 1 0.125
+thread sleeper 2 0.3
+thread sleeper 3 0.45
+thread listener 4 0.2
+thread listener 5 0.7
+wait 1.4
+println "caught " level.caught
+end
+sleeper local.id local.when:
+thread nudge local local.when local.id
+try
+{
+  for (local.i = 1; local.i <= 4; local.i++)
+  {
+    wait 0.25
+    println "sleeper " local.id " lap " local.i
+  }
+}
+catch
+{
+stop local.why local.n:
+  level.caught++
+  println "sleeper " local.id " stopped: " local.why " " local.n " in lap " local.i
+  wait 0.1
+  println "sleeper " local.id " cleanup done"
+}
+end local.id
+listener local.id local.when:
+thread nudge local local.when local.id
+try
+{
+  level waittill "go"
+  println "listener " local.id " went"
+}
+catch
+{
+stop local.why local.n:
+  level.caught++
+  println "listener " local.id " stopped: " local.why " " local.n
+}
+end
+nudge local.t local.when local.id:
+wait local.when
+if (local.id == 2 || local.id == 5)
+{
+  local.t delaythrow stop "delayed" local.id
+}
+else
+{
+  local.t throw stop "now" local.id
+}
+println "nudged " local.id
+end
 """,
 ]
 
